@@ -59,6 +59,9 @@ func declMatrix() []declCase {
 	add("string format", "object Foo {\n  field s string {\n    format = \"email\"\n  }\n}\n")
 	add("map ext and rules", "object Foo {\n  field m map:string {\n    ext.singleForm = \"pair\"\n    rules.minPairs = 1\n    rules.maxPairs = 3\n  }\n}\n")
 	add("decimal and date ext", "object Foo {\n  field d decimal {\n    ext {\n    }\n  }\n  field t date {\n    ext {\n    }\n  }\n}\n")
+	// timestamp bounds (schema.proto TimestampField.Rules.minimum / maximum are google.protobuf.Timestamp): a rule kind of the schema language
+	add("timestamp rules minimum", "object Foo {\n  field t timestamp {\n    rules.minimum = \"2020-01-01T00:00:00Z\"\n  }\n}\n")
+	add("timestamp rules maximum exclusive", "object Foo {\n  field t timestamp {\n    rules.maximum = \"2030-01-01T00:00:00Z\"\n    rules.exclusiveMaximum = true\n  }\n}\n")
 	add("service", "service Foo {\n  basePath = \"/foo/v1\"\n  method Bar {\n    httpMethod = \"GET\"\n    httpPath = \"/bar/:id\"\n    request {\n      field id string\n    }\n    response {\n      field name string\n    }\n  }\n}\n")
 	for _, m := range []string{"GET", "POST", "PUT", "PATCH", "DELETE"} {
 		add("service method "+m, fmt.Sprintf("service Foo {\n  basePath = \"/foo/v1\"\n  method Bar {\n    httpMethod = %q\n    httpPath = \"/bar\"\n    request {\n    }\n    response {\n      field name string\n    }\n  }\n}\n", m))
